@@ -51,6 +51,21 @@ pub fn replay_other(prop: &str, kind: &str, case: &serde_json::Value) -> Result<
     if kind == "history" || kind == "schedule" {
         return c14::replay(case);
     }
+    if kind == "schedule-fine" {
+        // replayed by the instrumented binary (it runs the schedule twice itself)
+        let dir = std::env::var("VERIF_DIR").unwrap_or_else(|_| "/verif".to_string());
+        let bin = format!("{}/target-fine/release/fqv-fine", dir);
+        let tmp = format!("{}/scratch/replay-fine-{}.json", dir, std::process::id());
+        std::fs::write(&tmp, case.to_string()).map_err(|e| e.to_string())?;
+        let out = std::process::Command::new(&bin).args(["replay", &tmp]).output().map_err(|e| format!("{}: {}", bin, e));
+        let _ = std::fs::remove_file(&tmp);
+        let out = out?;
+        if out.status.code() == Some(2) || out.status.code().is_none() {
+            return Err(format!("fqv-fine replay failed: {}", String::from_utf8_lossy(&out.stderr)));
+        }
+        let txt = String::from_utf8_lossy(&out.stdout).to_string();
+        return Ok(txt.lines().filter(|l| l.starts_with("  C14/")).filter_map(|l| l.trim().split_once(": ").map(|(k, w)| (k.to_string(), w.to_string()))).collect());
+    }
     if kind == "fault" {
         return c19::replay(case, &std::env::var("VERIF_DIR").unwrap_or_else(|_| "/verif".to_string()));
     }
